@@ -72,9 +72,11 @@ def e2e_oracle(chk, r):
     ref = r.get("reference")
     # 1e-2 K here: the reference builds its hybrid loads at the maximum height; a design clamped at the minimum height carries loads built
     # there, and the peak durations move the extremes by a few 1e-3 K (the 1e-3 K comparison above is made on the returned object itself)
-    if ref is not None and (abs(sr["max_hp_eft"]["value"] - ref["max"]) > 1e-2 or abs(sr["min_hp_eft"]["value"] - ref["min"]) > 1e-2):
+    # ... every other design carries loads built at the maximum height, like the reference: the sizing tolerance applies
+    rtol = 1e-2 if abs(H - r["limits"]["min_height"]) < 1e-9 else TOL
+    if ref is not None and (abs(sr["max_hp_eft"]["value"] - ref["max"]) > rtol or abs(sr["min_hp_eft"]["value"] - ref["min"]) > rtol):
         chk.violation("summary", r["cfg"], {"reported": [sr["max_hp_eft"]["value"], sr["min_hp_eft"]["value"]], "from_the_requested_inputs": [ref["max"], ref["min"]], "H": H},
-                      "reported max/min EFT are those of the reported field at the reported height, simulated with the requested inputs (within 1e-2)")
+                      f"reported max/min EFT are those of the reported field at the reported height, simulated with the requested inputs (within {rtol})")
     lim = r["limits"]
     for row in js["design_selection_search_log"]["data"]:
         name, exc, mx, mn = row
@@ -162,6 +164,9 @@ Eval vm_compute in (length cases, length (filter (fun c => negb (ok c)) cases)).
             cfg("NEARSQUARE", "DOUBLEUTUBEPARALLEL", months=12),
             # temperature limits that are not round numbers (90 F / 40 F), both violated by the small fields tried first
             cfg(months=12, loads={"kind": "balanced", "scale": 45000.0, "seed": 6}, design={"max_eft": 32.2222, "min_eft": 4.4444})]
+    # a flow given for the whole system: the flow per borehole (and with it R_b and the peak-load durations) changes from candidate to candidate
+    cfgs += [cfg(months=12, loads={"kind": "balanced", "scale": 30000.0, "seed": 7}, flow=("SYSTEM", 1.6)),
+             cfg("RECTANGLE", months=12, loads={"kind": "cooling", "scale": 26000.0, "seed": 2}, flow=("SYSTEM", 1.2))]
     sx = cfg("RECTANGLE", months=12)
     sx["_suffix"] = "_A"
     cfgs.append(sx)
